@@ -357,15 +357,13 @@ def _exec(stmts, env, repo, module):
 
 
 def _packet_slot_limit(ctx, hm):
-    enc = hm.get_class("HeaderEncoder").methods.get("encode")
-    st = ctx.repo.try_fold(hm, hm.get_const_expr("_STRUCT"))
-    if enc is None or st is None:
-        return None
-    for c in ast.walk(enc):
-        if isinstance(c, ast.Call) and (dotted(c.func) or "").endswith("_STRUCT.pack"):
-            for i, a in enumerate(c.args):
-                if dotted(a) and dotted(a).endswith(".packet_id") and i < len(st.slots):
-                    return 256 ** st.slots[i].size, st.slots[i].size
+    """(number of values, size in bytes) of the header slot that carries header.packet_id - read off the header bytes as the
+    encoder builds them (one struct pack or several joined together)."""
+    from .. import bits as B, codec
+    packed, _, _ = codec.header_encoding(ctx.repo, hm)
+    for sl, a in zip(packed.struct.slots, packed.args):
+        if isinstance(a, B.BV) and a.sources() and all(n.endswith(".packet_id") for _, n, _ in a.sources()):
+            return 256 ** sl.size, sl.size
     return None
 
 
@@ -394,7 +392,7 @@ def _packet_id_from_iterator(ctx, R, gen, m, hm, ci, init) -> bool:
             except Exception:
                 seq = None
     lim = _packet_slot_limit(ctx, hm)
-    ctx.require(lim is not None, f"{hm.relpath}: header.packet_id is not an argument of _STRUCT.pack")
+    ctx.require(lim is not None, f"{hm.relpath}: header.packet_id is not packed into the header")
     limit, size = lim
     if seq is None:
         raise AnalysisError(f"{m.relpath}: packet ids come from next({src}) but {src} is not `itertools.cycle(<constant sequence>)` assigned once in __init__")
@@ -425,7 +423,7 @@ def r6(ctx):
         if _packet_id_from_iterator(ctx, R, gen, m, hm, ci, init):
             continue
         lim = _packet_slot_limit(ctx, hm)
-        ctx.require(lim is not None, f"{hm.relpath}: header.packet_id is not an argument of _STRUCT.pack")
+        ctx.require(lim is not None, f"{hm.relpath}: header.packet_id is not packed into the header")
         limit, size = lim
         mini = Mini(ctx.repo, m, {}, ci)
         params = [a.arg for a in cfm.args.args][1:]
